@@ -18,7 +18,7 @@ use tower::Service;
 
 pub struct C16;
 
-const PATTERNS: [&str; 7] = ["/", "/a", "/a/b", "/b", "/a/*rest", "/b/*rest", "/pkg.Svc/*rest"];
+const PATTERNS: [&str; 7] = ["/", "/a", "/a/b", "/b", "/a/*rest", "/b/*rest", "/Greeter.Admin/*rest"];
 const ALPHABET: [char; 9] = ['/', 'a', 'b', '*', ':', '.', ' ', 'é', '\0'];
 
 type Calls = Arc<Mutex<BTreeMap<u32, u64>>>;
@@ -64,7 +64,7 @@ macro_rules! rpc_leaf {
         }
     };
 }
-rpc_leaf!(RpcPkg, "pkg.Svc");
+rpc_leaf!(RpcPkg, "Greeter.Admin");
 rpc_leaf!(RpcGreeter, "Greeter");
 rpc_leaf!(RpcB, "b");
 
@@ -114,7 +114,7 @@ fn op_json(o: &Op) -> Value {
         Op::Layer => json!(["route_layer", 0]),
         Op::Merge(s) => json!(["merge", s]),
         Op::Rpc(n) => {
-            let name = ["pkg.Svc", "Greeter", "b"][*n];
+            let name = ["Greeter.Admin", "Greeter", "b"][*n];
             json!(["add_rpc_service", name])
         }
     }
@@ -182,7 +182,7 @@ impl Builder {
                     let id = self.next_svc;
                     self.next_svc += 1;
                     let leaf = Leaf { id, calls: self.calls.clone() };
-                    let name = ["pkg.Svc", "Greeter", "b"][*n];
+                    let name = ["Greeter.Admin", "Greeter", "b"][*n];
                     r = match n {
                         0 => r.add_rpc_service(RpcPkg(leaf)),
                         1 => r.add_rpc_service(RpcGreeter(leaf)),
